@@ -45,12 +45,12 @@ CHECKS = {
          "DESIGN.md §4 C20"),
  "C14": ("fault_enumeration",
          "fault injection at the Directory seam, enumerated over the operation indexes of a recorded fault-free run, each faulty re-run in a child process monitored for death / lack of progress, with reader-vs-model oracles after every batch, surfacing checks (Batch error, AsyncError), an acknowledgement probe after the fault clears and crash-image recovery of the faulty trace",
-         "For seeded histories the fault-free operation sequence is recorded; the same history is then re-run with an injected failure at chosen operation indexes for Persist (before any byte / after a partial write / after the full write), Load, Remove and List, transient and sticky, in safe and unsafe mode (pairs of placements in the thorough tier). Each run must not die or stall, readers must follow the applied batches, background failures must reach AsyncError (and the waiting Batch), a Write that failed inside an item writer must not end in a reported success (the injector passes a swallowed error on faithfully and marks it), the batch after the fault must be acknowledged, and all boundary crash images of the faulty trace must recover to a state not older than the last acknowledgement. Enumerated over the sampled placements of each history. The thorough tier runs a second stage on the yield-instrumented build (see C01).",
+         "For seeded histories the fault-free operation sequence is recorded; the same history is then re-run with an injected failure at chosen operation indexes for Persist (before any byte / after a partial write / after the full write), Load, Remove and List, transient and sticky, in safe and unsafe mode (pairs of placements in the thorough tier). Each run must not die or stall, readers must follow the applied batches, background failures must reach AsyncError (and the waiting Batch), a Write that failed inside an item writer must not end in a reported success (the injector passes a swallowed error on faithfully and marks it), a failed persist must leave nothing under the item's name, after the fault the writer's three background goroutines must still exist (14 further batches), a List / Load failure while an index holding data is re-opened must be reported by the open or leave a fully usable writer (30 further batches, readers, final content), the batch after the fault must be acknowledged, and all boundary crash images of the faulty trace must recover to a state not older than the last acknowledgement. Enumerated over the sampled placements of each history. The thorough tier runs a second stage on the yield-instrumented build (see C01).",
          "Trusts: directory-level injection as a model of I/O failure (os-level variants covered by C13); storage model of C02; 45 s progress watchdog (wall clock) reported with goroutine dump.",
          "DESIGN.md §4 C14"),
  "C11": ("exploration",
          "on-line invariant monitor hooked into a recording Directory wrapper (directory read back, decoded and CRC-checked after every snapshot persist and every remove; closer pairing; /proc/self/fd; reopen; second-writer refusal) under merge-happy runs with jitter, plus a lock hand-off stress",
-         "During real merge-happy runs with retention 1..3 the monitor evaluates, at every boundary after a snapshot persist or a remove and with no operation half-way, that enough loadable snapshots with all their segment files exist and that a removed segment does not belong to the live root; one run in six injects a single transient snapshot write error and the retention invariant must hold across it; at the end every Load closer must have been closed exactly once, no descriptor under the directory may be open, the directory must reopen at once with the right content and further writers must have been refused harmlessly (three attempts in a row at three moments of the first writer's life: a refusal must leave the lock in force). Held on the runs observed; the lock hand-off race is a listed finding. Both tiers run on the ordinary and on the yield-instrumented build (see C01).",
+         "During real merge-happy runs with retention 1..3 the monitor evaluates, at every boundary after a snapshot persist or a remove and with no operation half-way, that enough loadable snapshots with all their segment files exist and that a removed segment does not belong to the live root; one run in three injects a single transient write error of the persister (snapshot and segment writes alternating) and the retention invariant, the handle pairing and the readers must hold across it; at the end every Load closer must have been closed exactly once, no descriptor under the directory may be open, the directory must reopen at once with the right content and further writers must have been refused harmlessly (three attempts in a row at three moments of the first writer's life: a refusal must leave the lock in force). Held on the runs observed; the lock hand-off race is a listed finding. Both tiers run on the ordinary and on the yield-instrumented build (see C01).",
          "Trusts: the recording wrapper (operations serialised against the read-back only), the harness' decoder use (real ReadFrom + CRC).",
          "DESIGN.md §4 C11"),
  "C02": ("fault_enumeration",
@@ -65,7 +65,7 @@ CHECKS = {
          "DESIGN.md §2.6, §4 C03"),
  "C13": ("fault_enumeration",
          "runtime monitoring of the real FileSystemDirectory.Persist under an enumerated grid of item sizes, pre-existing file states and fault placements, with os-level observation and fault injection through a go build -overlay copy of os.File (Write/Sync/Close/Truncate hooks)",
-         "Every cell of the grid (7 sizes x 3 chunkings x 4 pre-existing states x {no fault, item writer failing after k bytes, cancellation after k bytes, cancellation already in force at entry, os write failing after a partial write, os Sync failing, os Close failing} with k over a boundary set x both item kinds, plus a real ice segment and a real snapshot) is executed against the real directory; success requires byte-exact content and an observed successful Sync after the last write and before return; failure requires that nothing is left under the name. Exhaustive over the grid.",
+         "Every cell of the grid (7 sizes x 3 chunkings x 4 pre-existing states x {no fault, item writer failing after k bytes, cancellation after k bytes, cancellation already in force at entry, the item held by a reader (shared lock), os write failing after a partial write, os Sync failing, os Close failing} with k over a boundary set x both item kinds, plus a real ice segment and a real snapshot) is executed against the real directory; success requires byte-exact content and an observed successful Sync after the last write and before return; failure requires that nothing is left under the name. Exhaustive over the grid.",
          "Trusts: the os overlay (hooks inserted into copies of os/file.go and os/file_posix.go for this build only); a returned fsync means durable; directory entries durable at completion.",
          "DESIGN.md §4 C13"),
  "C12": ("exploration",
@@ -75,7 +75,7 @@ CHECKS = {
          "DESIGN.md §4 C12"),
  "C08": ("exploration",
          "differential runtime oracle: the same document multiset built by 15 physical recipes, every build answering the same generated requests, canonical answers compared pairwise against the one-batch build",
-         "For generated corpora (including the empty one) every recipe (batch partitioning, ice v1/v2, optimisations off, merge-happy memory/disk, reopen, Backup+OpenReader, OfflineWriter, OfflineWriter prefix + appended batches, histories with deletions (un-merged and merge-happy), MultiSearch over partitions; each layout also asked with score mode none) must give the same id multiset, stored fields, distinct-key order and aggregations, and bit-comparable scores when neither side has merged segments or pending deletions. Held on the corpora, recipes and requests explored.",
+         "For generated corpora (including the empty one) every recipe (batch partitioning, ice v1/v2, optimisations off, merge-happy memory/disk, reopen, Backup+OpenReader, OfflineWriter (generated corpora with any batch size, plus a sweep over every number of one-document flushes from 1 to 100 and several merge fan-ins), OfflineWriter prefix + appended batches, histories with deletions (un-merged and merge-happy), MultiSearch over partitions; each layout also asked with score mode none) must give the same id multiset, stored fields, distinct-key order and aggregations, and bit-comparable scores when neither side has merged segments or pending deletions. Held on the corpora, recipes and requests explored.",
          "Trusts: canonicalisation (ties under field sorts compared as sets; terms size above vocabulary). Layout differences are measured through the hook (segment counts) so that 'different layout' is not assumed.",
          "DESIGN.md §4 C08"),
  "C17": ("exploration",
@@ -90,7 +90,7 @@ CHECKS = {
          "DESIGN.md §4 C16"),
  "C09": ("exploration",
          "differential runtime oracle: TopN(n, from, sort) and After/Before page chains of the real collectors against the complete match list ordered by a reference comparator over model values",
-         "For generated corpora, queries, sort orders (<= 3 keys, score/text/numeric/date, asc/desc, missing first/last) and (n, from) on both sides of the slice/heap switch, the result count and the pre-allocation cap (with dedicated corpora of 1100-2000 documents so that more than 1000 matches exist beyond the cap), the returned ids must equal elements [from, from+n) of the reference ranking; After and Before chains under a total order must visit every match once in order for all page sizes, with fresh and with re-used sort order objects; a probe with present-but-empty text keys beside missing ones covers all four direction / missing placements (two of them are listed findings). Held on the inputs explored.",
+         "For generated corpora, queries, sort orders (<= 3 keys, score/text/numeric/date, asc/desc, missing first/last) and (n, from) on both sides of the slice/heap switch, the result count and the pre-allocation cap (with dedicated corpora of 1100-2000 documents so that more than 1000 matches exist beyond the cap), the returned ids must equal elements [from, from+n) of the reference ranking; After and Before chains under a total order must visit every match once in order for all page sizes, with fresh and with re-used sort order objects; a probe with present-but-empty text keys beside missing ones covers all four direction / missing placements (two of them are listed findings); heavy ties over more than a thousand matches must be broken by index order; the same score-ordered requests issued by 8 goroutines at once must each return the slice of the sequential ranking. Held on the inputs explored.",
          "Trusts: the reference comparator (model values, ties by enumeration order of the all-matches collector), scores taken from the all-matches run. Sort fields single-valued.",
          "DESIGN.md §4 C09"),
  "C07": ("exploration",
